@@ -1570,6 +1570,6 @@ pub fn c18(ctx: &Ctx) -> PropResult {
         stats: st,
         rule: "every library procedure of the live registry (SLEEP excepted; FS inside a scratch working directory, INPUT with an empty standard input) called once with plausible arguments between two DISPLAY probes, every statement form, the three IMPORT forms, lexical / syntax / runtime errors, random programs; run in-process with the output channel captured by the hook sink while the process's file descriptors 1 and 2 are redirected to files: the sink must hold exactly the model's displayed output and the descriptors must stay empty (lexing and parsing alone included); static part: the census of output sites regenerated into Gen/Sites.lean and closed by `decide` (see theorems); programs with 1 .. 300 lexical / syntax errors; INPUT at end of input; every FS procedure failing for every kind of reason; every environment variable the code reads is set; thirteen operators x ten operand kinds squared; SLEEP with durations that take no time; the legacy spelling of the robot's move; dead code after RETURN; constructs a linter would remark on (a list stored in itself, two parameters of one name, unused values)".into(),
         exhaustive: false,
-        notes: vec![format!("{} output sites in /repo/src", output_sites().len()), "the library in its wasm configuration is type-checked by ./check on every run (cargo check --lib --no-default-features --features wasm), not executed".into()],
+        notes: vec![format!("{} output sites in /repo/src", output_sites().len()), "the library in its wasm configuration is type-checked by ./check on every run (cargo check --lib --no-default-features --features wasm), not executed".into(), "round 16: indexes with a fractional part, below and above one, in reads and writes".into()],
     }
 }
